@@ -198,8 +198,17 @@ func applyItem(e *NodeEnv, it Item) string {
 	case "crashmsg":
 		e.applyCrashMsg(it.In.Msg, it.In.CrashK)
 		return "ok"
+	case "crashresult":
+		e.applyCrashResult(it.In.Result, it.In.CrashK)
+		return "ok"
 	}
 	return "ok"
+}
+
+func crashResultItem(it Item, k int) Item {
+	in := it.In
+	in.Kind, in.CrashK = "crashresult", k
+	return Item{In: in, Line: strings.Replace(it.Line, " result ", fmt.Sprintf(" crashresult %d result ", k), 1), Label: fmt.Sprintf("crashresult-%d", k)}
 }
 
 func crashItem(it Item, k int) Item {
